@@ -1,0 +1,128 @@
+//go:build verif
+
+// Accessors for the external verification harness (/verif): FEC encoder / decoder / auto-tune.
+// Compiled only with -tags verif; add-only, no behaviour of the package changes.
+package kcp
+
+import "sort"
+
+// VerifFECEncoder wraps the unexported fecEncoder.
+type VerifFECEncoder struct{ e *fecEncoder }
+
+// VerifNewFECEncoder is newFECEncoder; nil when the constructor refuses the parameters.
+func VerifNewFECEncoder(dataShards, parityShards, offset int) *VerifFECEncoder {
+	e := newFECEncoder(dataShards, parityShards, offset)
+	if e == nil {
+		return nil
+	}
+	return &VerifFECEncoder{e}
+}
+
+// SetNext presets the next sequence id (to place a group anywhere in the id space).
+func (v *VerifFECEncoder) SetNext(next uint32) { v.e.next = next }
+
+// Encode calls encode(b, rto) with the time test `now - tsLatestPacket < rto` forced to the
+// value of continuous: tsLatestPacket is put far in the future (difference negative, test
+// true) or at 0 (difference = wall clock in ms since 1970, test false for rto = 500).
+// The returned parity slices alias the encoder's cache exactly as in the package.
+func (v *VerifFECEncoder) Encode(b []byte, continuous bool) [][]byte {
+	if continuous {
+		v.e.tsLatestPacket = 1 << 60
+	} else {
+		v.e.tsLatestPacket = 0
+	}
+	return v.e.encode(b, maxFECEncodeLatency)
+}
+
+// EncodeOOB is encodeOOB.
+func (v *VerifFECEncoder) EncodeOOB(b []byte) { v.e.encodeOOB(b) }
+
+// VerifFECEncoderState is a flat copy of the encoder's scalar state.
+type VerifFECEncoderState struct {
+	DataShards, ParityShards, ShardSize int
+	Paws, Next                          uint32
+	ShardCount, MaxSize                 int
+	HeaderOffset, PayloadOffset         int
+}
+
+func (v *VerifFECEncoder) State() VerifFECEncoderState {
+	e := v.e
+	return VerifFECEncoderState{e.dataShards, e.parityShards, e.shardSize, e.paws, e.next,
+		e.shardCount, e.maxSize, e.headerOffset, e.payloadOffset}
+}
+
+// VerifFECDecoder wraps the unexported fecDecoder.
+type VerifFECDecoder struct{ d *fecDecoder }
+
+// VerifNewFECDecoder is newFECDecoder; nil when the constructor refuses the parameters.
+func VerifNewFECDecoder(dataShards, parityShards int) *VerifFECDecoder {
+	d := newFECDecoder(dataShards, parityShards)
+	if d == nil {
+		return nil
+	}
+	return &VerifFECDecoder{d}
+}
+
+// Decode is decode(in).  The returned buffers are pool buffers exactly as in the package;
+// the caller owns them (kcpInput returns them to the pool).
+func (v *VerifFECDecoder) Decode(in []byte) [][]byte { return v.d.decode(fecPacket(in)) }
+
+// VerifShardSetState describes one entry of the decoder's shardSet map.
+type VerifShardSetState struct {
+	ID     uint32
+	SeqIDs []uint32 // ids held, ascending
+	Sizes  []int    // packet lengths, same order
+}
+
+// VerifFECDecoderState is a canonical copy of the decoder's state.
+type VerifFECDecoderState struct {
+	DataShards, ParityShards, ShardSize int
+	Paws, NewestShardID                 uint32
+	ShouldTune                          bool
+	TuneHead, TuneTail, TuneCount       int
+	Sets                                []VerifShardSetState // ascending ID
+}
+
+func (v *VerifFECDecoder) State() VerifFECDecoderState {
+	d := v.d
+	st := VerifFECDecoderState{DataShards: d.dataShards, ParityShards: d.parityShards, ShardSize: d.shardSize,
+		Paws: d.paws, NewestShardID: d.newestShardId, ShouldTune: d.shouldTune,
+		TuneHead: d.autoTune.head, TuneTail: d.autoTune.tail, TuneCount: d.autoTune.count}
+	for id, h := range d.shardSet {
+		s := VerifShardSetState{ID: id}
+		type ent struct {
+			seq uint32
+			n   int
+		}
+		var es []ent
+		for _, p := range h.elements {
+			es = append(es, ent{p.seqid(), len(p)})
+		}
+		sort.Slice(es, func(i, j int) bool { return es[i].seq < es[j].seq })
+		for _, e := range es {
+			s.SeqIDs = append(s.SeqIDs, e.seq)
+			s.Sizes = append(s.Sizes, e.n)
+		}
+		st.Sets = append(st.Sets, s)
+	}
+	sort.Slice(st.Sets, func(i, j int) bool { return st.Sets[i].ID < st.Sets[j].ID })
+	return st
+}
+
+// VerifAutoTune wraps the unexported autoTune.
+type VerifAutoTune struct{ t autoTune }
+
+func VerifNewAutoTune() *VerifAutoTune                  { return &VerifAutoTune{} }
+func (v *VerifAutoTune) Sample(bit bool, seq uint32)    { v.t.Sample(bit, seq) }
+func (v *VerifAutoTune) FindPeriod(bit bool) int        { return v.t.FindPeriod(bit) }
+func (v *VerifAutoTune) State() (head, tail, count int) { return v.t.head, v.t.tail, v.t.count }
+
+// VerifFECConstants returns the constants the model takes from Generated.lean, as compiled.
+func VerifFECConstants() map[string]int {
+	return map[string]int{
+		"fecHeaderSize": fecHeaderSize, "fecHeaderSizePlus2": fecHeaderSizePlus2,
+		"typeData": typeData, "typeParity": typeParity, "typeOOB": typeOOB,
+		"maxShardSets": maxShardSets, "maxAutoTuneSamples": maxAutoTuneSamples,
+		"mtuLimit": mtuLimit, "maxFECEncodeLatency": maxFECEncodeLatency,
+	}
+}
